@@ -361,7 +361,7 @@ func ReplayFill(base int, evs []Ev, rnd *rand.Rand) ([]Line, error) {
 			select {
 			case st := <-lch:
 				ln.Started = st
-			case <-time.After(300 * time.Millisecond):
+			case <-time.After(2 * time.Second):
 				ln.Note = "RefreshLoop did not return"
 			}
 		case "loopupdate":
